@@ -42,6 +42,7 @@ WIRED = [
     (f"{PL}.add", f"{PL}._validate", "pipeline-level validation on every add"),
     (f"{PL}._validate", f"{VAL}.validate_consistent_defaults", "inconsistent defaults"),
     (f"{PL}._validate", f"{VAL}.validate_scopes", "scope used as parameter name"),
+    (f"{PL}.graph", f"{VAL}.validate_consistent_defaults", "defaults made inconsistent through a member function (graph is rebuilt after every invalidation)"),
     (f"{PL}._validate", f"{PL}._validate_mapspec", "MapSpecs vs output names / axes"),
     (f"{PL}._validate_mapspec", "pipefunc.map._mapspec.validate_consistent_axes", "MapSpecs that disagree about an array's axes"),
     (f"{PL}._validate_mapspec", f"{PL}._autogen_mapspec_axes", "cyclic dependencies (topological_generations via networkx)"),
@@ -155,6 +156,46 @@ def check(ctx: Ctx) -> None:  # noqa: C901, PLR0912, PLR0915
     first = [s for s in prep.node.body if not (isinstance(s, ast.Expr) and isinstance(s.value, ast.Constant))][0]
     ok = isinstance(first, ast.If) and norm(first.test) == "not parallel and executor" and any(isinstance(x, ast.Raise) for x in first.body)
     ctx.add("1-wired", prep, first, ok, "an executor with parallel=False is rejected first" if ok else "prepare_run no longer starts by rejecting an executor with parallel=False", key="executor-parallel")
+    # cycle detection on the run/__call__ path: something that certainly sorts topologically must dominate _run
+    sorts = {f"{PL}.topological_generations"}
+    pl_cls = P.cls(PL)
+    changed = True
+    while changed:
+        changed = False
+        for m in pl_cls.methods.values():
+            if m.qualname in sorts:
+                continue
+            for st in m.node.body:
+                if isinstance(st, (ast.If, ast.For, ast.While, ast.Try, ast.With)):
+                    continue
+                hit = False
+                for x in _unconditional(st):
+                    if isinstance(x, ast.Attribute) and norm(x.value) == "self" and f"{PL}.{x.attr}" in sorts and not isinstance(x.ctx, ast.Store):
+                        hit = True
+                    if isinstance(x, ast.Call) and isinstance(x.func, ast.Attribute) and norm(x.func.value) == "self":
+                        if x.func.attr == "mapspecs":
+                            # mapspecs(ordered=True) reads sorted_functions; ordered=False does not sort
+                            unordered = any(k.arg == "ordered" and isinstance(k.value, ast.Constant) and k.value.value is False for k in x.keywords)
+                            if not unordered and f"{PL}.sorted_functions" in sorts:
+                                hit = True
+                if hit:
+                    sorts.add(m.qualname)
+                    changed = True
+                    break
+    run_m = P.func(f"{PL}.run")
+    cfg_r = ctx.cfg(run_m)
+    run_calls = cfg_r.nodes(lambda s: any(isinstance(c, ast.Call) and norm(c.func) == "self._run" for part in header_parts(s) for c in ast.walk(part)))
+    sort_nodes = set()
+    for n in cfg_r.nodes():
+        for part in header_parts(cfg_r.stmt[n]):
+            for x in _unconditional(part):
+                if isinstance(x, ast.Attribute) and norm(x.value) == "self" and f"{PL}.{x.attr}" in sorts:
+                    sort_nodes.add(n)
+                if isinstance(x, ast.Call) and isinstance(x.func, ast.Attribute) and norm(x.func.value) == "self" and f"{PL}.{x.func.attr}" in sorts and x.func.attr != "mapspecs":
+                    sort_nodes.add(n)
+    ok = bool(run_calls) and bool(sort_nodes) and all(any(cfg_r.dominates(s_, r) for s_ in sort_nodes) for r in run_calls)
+    ctx.add("1-wired", run_m, run_m.node, ok, "run() topologically sorts the (possibly mutated) graph before evaluating anything: cycles raise first" if ok else
+            "nothing on the way from run() to _run() certainly sorts the graph topologically: a cycle introduced through a member function is only noticed after user functions ran (RecursionError)", key="run-detects-cycles")
     tg = P.func(f"{PL}.topological_generations")
     ok = "nx.topological_generations(graph)" in norm(tg.node) and "list(nx.topological_generations(graph))" in norm(tg.node)
     ctx.add("1-wired", tg, tg.node, ok, "generations are materialised eagerly (networkx raises on a cycle)" if ok else "topological_generations no longer consumes nx.topological_generations eagerly: cycles surface later", key="cycle-eager")
@@ -277,6 +318,8 @@ B, PFF, PR, RIF = "pipefunc/_pipeline/_base.py", "pipefunc/_pipefunc.py", "pipef
 MUTANTS = [
     Mutant("add-no-unique-check", B, "        validate_unique_output_names(f.output_name, self.output_to_func)\n", "", ("C12.1-wired",)),
     Mutant("validate-skips-scopes", B, "        validate_scopes(self.functions)\n        validate_consistent_defaults", "        validate_consistent_defaults", ("C12.1-wired",)),
+    Mutant("graph-no-defaults-check", B, "        validate_consistent_defaults(self.functions, output_to_func=self.output_to_func)\n        g = nx.DiGraph()\n", "        g = nx.DiGraph()\n", ("C12.1-wired",), why="seeded C12/2"),
+    Mutant("mapspec-names-unsorted", B, "            for mapspec in self.mapspecs()\n            for name in mapspec.input_names + mapspec.output_names\n", "            for mapspec in self.mapspecs(ordered=False)\n            for name in mapspec.input_names + mapspec.output_names\n", ("C12.1-wired",), why="seeded C12/3"),
     Mutant("update-bound-no-validate", PFF, "            self._bound = dict(self._bound, **bound)\n        self._clear_internal_cache()\n        self._validate()\n", "            self._bound = dict(self._bound, **bound)\n        self._clear_internal_cache()\n", ("C12.1-wired",)),
     Mutant("prepare-no-axes-check", PR, "    validate_consistent_axes(pipeline.mapspecs(ordered=False))\n", "", ("C12.1-wired",)),
     Mutant("prepare-complete-inputs-only-when-no-subpipeline", PR, "    _validate_complete_inputs(pipeline, inputs)\n", "    if not auto_subpipeline:\n        _validate_complete_inputs(pipeline, inputs)\n", ("C12.1-wired",)),
